@@ -66,6 +66,42 @@ pub fn check_message(m: &ErrMsg, bytes: &[u8], tr: &Truth) -> Result<&'static st
             if row != want {
                 return Err(("C07:rdh-context-row-mismatch".into(), format!("`current :` row `{row}` != decode of the 64 bytes at the offset `{want}`")));
             }
+            // header fields quoted in the message text itself (`name = value` in the first line)
+            let first_line = m.text.lines().next().unwrap_or("");
+            static FIELDS: OnceLock<Vec<(&'static str, Regex)>> = OnceLock::new();
+            let fields = FIELDS.get_or_init(|| {
+                [
+                    ("Header size", r"Header size = 0x([0-9a-fA-F]+)"),
+                    ("Priority bit", r"Priority bit = 0x([0-9a-fA-F]+)"),
+                    ("system_id", r"system_id = 0x([0-9a-fA-F]+)"),
+                    ("BC", r"\bBC = 0x([0-9a-fA-F]+)"),
+                    ("stop bit", r"stop bit = 0x([0-9a-fA-F]+)"),
+                    ("trigger_type", r"trigger_type = 0x([0-9a-fA-F]+)"),
+                    ("detector_field", r"detector_field = 0x([0-9a-fA-F]+)"),
+                    ("data format", r"data format = 0x([0-9a-fA-F]+)"),
+                ]
+                .iter()
+                .map(|(n, p)| (*n, Regex::new(p).unwrap()))
+                .collect()
+            });
+            for (name, re) in fields.iter() {
+                if let Some(c) = re.captures(first_line) {
+                    let quoted = u64::from_str_radix(&c[1], 16).unwrap_or(u64::MAX);
+                    let stored: u64 = match *name {
+                        "Header size" => r.header_size as u64,
+                        "Priority bit" => r.priority as u64,
+                        "system_id" => r.system_id as u64,
+                        "BC" => r.bc() as u64,
+                        "stop bit" => r.stop_bit as u64,
+                        "trigger_type" => r.trigger_type as u64,
+                        "detector_field" => r.detector_field as u64,
+                        _ => r.data_format() as u64,
+                    };
+                    if quoted != stored {
+                        return Err((format!("C07:quoted-header-field-differs:{name}"), format!("message at {:#X} quotes {name} = {quoted:#x}, the RDH at that offset stores {stored:#x}", m.offset)));
+                    }
+                }
+            }
             // `previous:` rows quote earlier RDHs handled by the same validator: each must be the decode of an RDH of the
             // chain before this one; and when the chain has an earlier RDH with the same link id and FEE id (one that is in
             // the same validator whatever the mode and passes every filter this one passes) a previous row must be there,
